@@ -5,5 +5,5 @@ CONSTANTS
   MaxChunk = 2
   MaxSteps = 4
   NFields = 3
-INVARIANTS MeaningIsAddLoop FieldsSeeEverything Emit
+INVARIANTS MeaningIsAddLoop FieldsSeeEverything NoPoison Emit
 CHECK_DEADLOCK FALSE
